@@ -84,6 +84,17 @@ func jsonAssign(fr *frame, target iface, v value) iface {
 		}
 		v = iv.v
 	}
+	// encoding/json reuses a non-nil map target and keeps its existing entries
+	if _, isMap := T.Underlying().(*types.Map); isMap {
+		if old, ok := (*p).(*omap); ok && old != nil && old.lazy == nil {
+			if nv, ok := v.(*omap); ok && nv != nil && nv.lazy == nil {
+				for i := range nv.keys {
+					old.insert(nv.keys[i], copyDecoded(nv.vals[i]))
+				}
+				return iface{}
+			}
+		}
+	}
 	*p = copyDecoded(v)
 	return iface{}
 }
